@@ -127,6 +127,17 @@ def order_sweep(ctx, db, aff, r):
             try:
                 fa, fb = FractionScalar(FractionValue(x), u), FractionScalar(FractionValue(y), v)
                 order_pair(ctx, fa, fb, A, B, noise, case, "FractionScalar")
+                # the value a FractionScalar holds is the caller's object and its fraction can be edited in place: the order asked for
+                # afterwards is the order of the amounts held then (nothing remembered from the comparison before)
+                if x == x and abs(x) < 1e6:
+                    fv_e = FractionValue(float(int(x)), (1, 2))
+                    fe = FractionScalar(fv_e, u)
+                    order_pair(ctx, fe, fb, Fr(au.off) + Fr(au.slope) * (Fr(int(x)) + Fr(1, 2)), B, noise, dict(case, edited="before"), "FractionScalar")
+                    fv_e.fraction.numerator = 5
+                    if float(fe.GetValue()) == int(x) + 2.5:
+                        order_pair(ctx, fe, fb, Fr(au.off) + Fr(au.slope) * (Fr(int(x)) + Fr(5, 2)), B, noise, dict(case, edited="the numerator of the held fraction, in place"), "FractionScalar")
+                    elif True:
+                        ctx.violation("FractionScalar:float-of-the-held-value-ignores-an-edit-of-its-fraction", dict(case, held=repr(fe.GetValue()), float=float(fe.GetValue())), replay=case)
                 # amounts that *print* like the ones just compared (the same six significant digits) are other amounts
                 for x2, y2 in ((x * (1 + 3e-7), y), (x * (1 - 3e-7), y), (x, y * (1 + 3e-7)), (x, y * (1 - 3e-7))):
                     A2 = Fr(au.off) + Fr(au.slope) * Fr(x2)
@@ -294,7 +305,8 @@ def equality_pool(r):
         "FixedArray(unknown,caption)": FixedArray(2, GetUnknownQuantity("Feeeet"), [1.0, 2.0]),
         # one quantity reached through requests that need not hand out one interned object: equal, so hash-equal
         "Quantity(m,length)": ObtainQuantity("m", "length"), "Quantity(length, unit left out)": ObtainQuantity(None, "length"), "Quantity(m,length, empty caption)": ObtainQuantity("m", "length", ""),
-        "Quantity(length,m) by the constructor": Quantity("length", "m"), "Quantity(lbmol)": ObtainQuantity("lbmol", "amount of substance"), "Quantity(lbmole)": ObtainQuantity("lbmole", "amount of substance"),
+        "Quantity(length,m) by the constructor": Quantity("length", "m"), "Quantity({length:[m,1]}) by the constructor": Quantity(OrderedDict([("length", ["m", 1])]), None),
+        "Scalar(map-form constructor quantity)": Scalar(Quantity(OrderedDict([("length", ["m", 1])]), None), v), "Quantity({length:[m,1]}) requested": ObtainQuantity(OrderedDict([("length", ["m", 1])])), "Quantity(lbmol)": ObtainQuantity("lbmol", "amount of substance"), "Quantity(lbmole)": ObtainQuantity("lbmole", "amount of substance"),
         "Scalar(m,length)": Scalar(ObtainQuantity("m", "length"), v), "Scalar(length, unit left out)": Scalar(ObtainQuantity(None, "length"), v), "Scalar(m,length, empty caption)": Scalar(ObtainQuantity("m", "length", ""), v),
         "Scalar(constructor quantity)": Scalar(Quantity("length", "m"), v), "Scalar(lbmol)": Scalar("amount of substance", v, "lbmol"), "Scalar(lbmole)": Scalar("amount of substance", v, "lbmole"),
         "UnitSystem(id None)": UnitSystem(None, "Null", {}, True), "UnitSystem(the manager's null system)": _null_system(),
